@@ -623,6 +623,10 @@ pub fn rand_step(rng: &mut Rng, g: &Grid, invalid: bool, copy_ok: bool, conversi
     }
 }
 
+pub fn rand_step_pub(rng: &mut Rng, g: &Grid, maxdim: usize) -> Step {
+    rand_step(rng, g, false, true, false, maxdim)
+}
+
 fn random_history<T: Elem + Clone + Ord + Default>(ctx: &mut Ctx, prop: &'static str, seed_mix: u64, nsteps: usize, invalid: bool, conversions: bool, maxdim: usize, start: Option<(usize, usize)>) {
     ledger_reset();
     kv_reset();
